@@ -1,6 +1,290 @@
 import PppModel.Auto
+import PppModel.Lemmas.V1Entry
+import PppModel.Lemmas.Ipv6Grammar
 
-/-! # C01 (theorems under construction) -/
+/-!
+# C01 — the v1 parser accepts exactly the well-formed lines and decodes them faithfully
+
+`Spec.V1.Line` (PppModel/Spec/V1.lean) is the grammar of the protocol text
+(proxy-protocol.txt section 2.1): `PROXY UNKNOWN[ …]\r\n`, `PROXY TCP4 a b p q\r\n`,
+`PROXY TCP6 a b p q\r\n`, single spaces, plain decimal ports, dotted-quad IPv4 without
+leading zeros.  The IPv6 text form is the parameter `ip6` of `Line`.
+
+The `_partial` theorems below instantiate `ip6` with `V1.ip6Model` = "the std parser model
+(`StdNet.parseIpv6`) accepts the text and the text contains no SP/CR".  They say, for every
+entry point (`TryFrom<&[u8]>`, `TryFrom<&str>`, both `FromStr`):
+
+* the input is accepted **iff** it begins with a well-formed line of at most 107 bytes
+  (valid UTF-8 for the byte entry point), whatever follows that line;
+* the header reported is exactly that line, and the addresses reported are exactly the
+  ones the line denotes (`Line hdr addr` relates text and value);
+* the line is the input through the LF after its *first* CR, has at least 15 bytes and
+  starts with `PROXY ` (`accepted_header_facts`);
+* the text of a TCP4 line is the canonical `Display` text of the decoded value
+  (`decoded_fields`).
+
+The full theorems (with `Spec.V1.Ipv6Text`, the RFC 4291 grammar, in place of
+`V1.ip6Model`) follow from these by rewriting with `StdNet.parseIpv6_iff_text` once that
+equivalence is available; they are not stated here.
+-/
 
 namespace C01
+open V1
+
+/-- The window handed to `parse_header` has nothing after the byte following its first CR. -/
+theorem window_is_window (x : B) (n : Nat) (h : V1.windowLength x = some n) : V1.IsWindow (x.take n) :=
+  V1.window_is_window x n h
+
+/-! ## `TryFrom<&[u8]>` -/
+
+/-- **C01 (bytes).** The byte entry point accepts `x` with result `h` iff `x` begins with
+`h.header`, which is valid UTF-8, at most 107 bytes long and a well-formed line denoting
+`h.addresses`. -/
+theorem bytes_accept_iff_partial (x : B) (h : V1.Header) :
+    V1.parseBytes x = .ok h ↔
+      ∃ rest, x = h.header ++ rest ∧ h.header.length ≤ 107 ∧ Utf8.valid h.header = true ∧
+        Spec.V1.Line V1.ip6Model h.header h.addresses := by
+  rw [parseBytes_ok_iff_window]
+  constructor
+  · rintro ⟨n, hw, hv, hp⟩
+    obtain ⟨h1, -, h3, h4, h5⟩ := accepted_core hw hp
+    exact ⟨x.drop n, h3, h4, h1 ▸ hv, h5⟩
+  · rintro ⟨rest, rfl, hlen, hv, hl⟩
+    obtain ⟨-, hw, ht⟩ := window_of_line (rest := rest) hl
+    refine ⟨_, hw, ?_, ?_⟩
+    · rw [ht]; exact hv
+    · rw [ht]; exact parseHeader_ok_of_line hlen hl
+
+/-! ## `TryFrom<&str>` and the two `FromStr` -/
+
+/-- The line ends with LF, an ASCII byte, so its end is a character boundary of the
+valid string that contains it. -/
+theorem boundary_after_line {hdr rest : B} {addr : V1.Addresses}
+    (hl : Spec.V1.Line V1.ip6Model hdr addr) (hx : Utf8.valid (hdr ++ rest) = true) :
+    Utf8.isCharBoundary (hdr ++ rest) hdr.length = true := by
+  obtain ⟨body, -, rfl⟩ := line_shape hl
+  have e : body ++ [CR, LF] ++ rest = (body ++ [CR]) ++ LF :: rest := by simp
+  have hlen : (body ++ [CR, LF]).length = (body ++ [CR]).length + 1 := by simp
+  rw [e, hlen]
+  rw [e] at hx
+  exact (Utf8.boundary_after_ascii (body ++ [CR]) LF rest (by decide) hx).1
+
+/-- (→) of `str_accept_iff_partial`; needs nothing about UTF-8. -/
+theorem str_accept_line {x : B} {h : V1.Header} (hp : V1.parseStr x = .ok h) :
+    ∃ rest, x = h.header ++ rest ∧ h.header.length ≤ 107 ∧
+      Spec.V1.Line V1.ip6Model h.header h.addresses := by
+  obtain ⟨n, hw, -, hp⟩ := (parseStr_ok_iff_window x h).mp hp
+  obtain ⟨-, -, h3, h4, h5⟩ := accepted_core hw hp
+  exact ⟨x.drop n, h3, h4, h5⟩
+
+/-- **C01 (text).** For an input that is a `&str`, the text entry point accepts `x` with
+result `h` iff `x` begins with `h.header`, a well-formed line of at most 107 bytes
+denoting `h.addresses`. -/
+theorem str_accept_iff_partial (x : B) (hx : Utf8.valid x = true) (h : V1.Header) :
+    V1.parseStr x = .ok h ↔
+      ∃ rest, x = h.header ++ rest ∧ h.header.length ≤ 107 ∧
+        Spec.V1.Line V1.ip6Model h.header h.addresses := by
+  constructor
+  · exact str_accept_line
+  · rintro ⟨rest, rfl, hlen, hl⟩
+    rw [parseStr_ok_iff_window]
+    obtain ⟨-, hw, ht⟩ := window_of_line (rest := rest) hl
+    refine ⟨_, hw, boundary_after_line hl hx, ?_⟩
+    rw [ht]; exact parseHeader_ok_of_line hlen hl
+
+theorem fromStrHeader_eq (x : B) : V1.fromStrHeader x = V1.parseStr x := by
+  unfold V1.fromStrHeader; cases V1.parseStr x <;> rfl
+
+/-- **C01 (`FromStr for Header`).** -/
+theorem fromStrHeader_accept_iff_partial (x : B) (hx : Utf8.valid x = true) (h : V1.Header) :
+    V1.fromStrHeader x = .ok h ↔
+      ∃ rest, x = h.header ++ rest ∧ h.header.length ≤ 107 ∧
+        Spec.V1.Line V1.ip6Model h.header h.addresses := by
+  rw [fromStrHeader_eq]; exact str_accept_iff_partial x hx h
+
+/-- **C01 (`FromStr for Addresses`).** The addresses are accepted iff the input begins
+with a well-formed line of at most 107 bytes that denotes them. -/
+theorem fromStrAddresses_accept_iff_partial (x : B) (hx : Utf8.valid x = true) (a : V1.Addresses) :
+    V1.fromStrAddresses x = .ok a ↔
+      ∃ hdr rest, x = hdr ++ rest ∧ hdr.length ≤ 107 ∧ Spec.V1.Line V1.ip6Model hdr a := by
+  constructor
+  · intro hf
+    unfold V1.fromStrAddresses at hf
+    cases hp : V1.parseStr x with
+    | error e => rw [hp] at hf; cases hf
+    | ok h =>
+      rw [hp] at hf
+      simp only [Except.ok.injEq] at hf
+      subst hf
+      obtain ⟨rest, h1, h2, h3⟩ := str_accept_line hp
+      exact ⟨h.header, rest, h1, h2, h3⟩
+  · rintro ⟨hdr, rest, h1, h2, h3⟩
+    have : V1.parseStr x = .ok ⟨hdr, a⟩ := (str_accept_iff_partial x hx ⟨hdr, a⟩).mpr ⟨rest, h1, h2, h3⟩
+    simp [V1.fromStrAddresses, this]
+
+/-! ## What an accepted header looks like -/
+
+/-- The header reported is exactly the line through its CR LF, ended by the *first* CR of
+the input; every accepted input starts with `PROXY ` and has at least 15 bytes. -/
+theorem accepted_header_facts {x : B} {h : V1.Header} (hp : V1.parseBytes x = .ok h) :
+    h.header <+: x ∧ V1.CRLF.isSuffixOf h.header = true ∧
+      V1.firstCR x = some (h.header.length - 2) ∧ 15 ≤ h.header.length ∧
+      h.header.take 6 = V1.PROXY ++ [V1.SP] := by
+  obtain ⟨rest, rfl, -, -, hl⟩ := (bytes_accept_iff_partial x h).mp hp
+  exact line_facts hl
+
+/-- The same for the text entry point (validity of the input is not needed). -/
+theorem accepted_header_facts_str {x : B} {h : V1.Header} (hp : V1.parseStr x = .ok h) :
+    h.header <+: x ∧ V1.CRLF.isSuffixOf h.header = true ∧
+      V1.firstCR x = some (h.header.length - 2) ∧ 15 ≤ h.header.length ∧
+      h.header.take 6 = V1.PROXY ++ [V1.SP] := by
+  obtain ⟨rest, rfl, -, hl⟩ := str_accept_line hp
+  exact line_facts hl
+
+/-- Every accepted input starts with `PROXY `. -/
+theorem accepted_starts_with_PROXY {x : B} {h : V1.Header} (hp : V1.parseBytes x = .ok h) :
+    x.take 6 = V1.PROXY ++ [V1.SP] := by
+  obtain ⟨⟨rest, rfl⟩, -, -, h15, h6⟩ := accepted_header_facts hp
+  rw [List.take_append_of_le_length (by omega)]; exact h6
+
+/-! ## Faithful decoding -/
+
+/-- What the decoded value says about the text, by protocol:
+* TCP4: the line is the canonical text of the value — `PROXY TCP4`, the two addresses in
+  dotted-quad `Display` form, the two ports in decimal `Display` form, single spaces, CR LF
+  (`V1.Addresses.format`);
+* TCP6: the line is `PROXY TCP6 sa da sp dp\r\n` with the ports in decimal `Display` form
+  and `sa`, `da` texts without SP/CR that the std parser model maps to the two addresses;
+* UNKNOWN: the line is `PROXY UNKNOWN`, then nothing or a space and CR-free text, then CR LF. -/
+theorem decoded_fields {x : B} {h : V1.Header} (hp : V1.parseBytes x = .ok h) :
+    match h.addresses with
+    | .tcp4 a => h.header = V1.Addresses.format (.tcp4 a)
+    | .tcp6 a => ∃ sa da, StdNet.parseIpv6 sa = some a.srcAddr ∧ StdNet.parseIpv6 da = some a.dstAddr ∧
+        V1.sepFree sa ∧ V1.sepFree da ∧
+        h.header = V1.PROXY ++ [V1.SP] ++ V1.TCP6 ++ [V1.SP] ++ sa ++ [V1.SP] ++ da ++ [V1.SP] ++
+          StdInt.dec a.srcPort.toNat ++ [V1.SP] ++ StdInt.dec a.dstPort.toNat ++ V1.CRLF
+    | .unknown => ∃ tail, (tail = [] ∨ tail.head? = some V1.SP) ∧ V1.crFree tail ∧
+        h.header = V1.PROXY ++ [V1.SP] ++ V1.UNKNOWN ++ tail ++ V1.CRLF := by
+  obtain ⟨rest, -, -, -, hl⟩ := (bytes_accept_iff_partial x h).mp hp
+  obtain ⟨hdr, addr⟩ := h
+  simp only at hl ⊢
+  cases hl with
+  | unknown tail h1 h2 => exact ⟨tail, h1, h2, rfl⟩
+  | tcp4 sa da sp dp a b p q hsa hda hsp hdp =>
+    simp only
+    rw [(ipv4Text_iff_display _ _).mp hsa, (ipv4Text_iff_display _ _).mp hda,
+      (portText_iff_dec _ _).mp hsp, (portText_iff_dec _ _).mp hdp]
+    rfl
+  | tcp6 sa da sp dp a b p q hsa hda hsp hdp =>
+    simp only
+    rw [(portText_iff_dec _ _).mp hsp, (portText_iff_dec _ _).mp hdp]
+    exact ⟨sa, da, hsa.1, hda.1, hsa.2, hda.2, rfl⟩
+
+/-! ## Non-vacuity -/
+
+/-- `PROXY UNKNOWN\r\n` -/
+private def unk : B := [0x50,0x52,0x4F,0x58,0x59,0x20,0x55,0x4E,0x4B,0x4E,0x4F,0x57,0x4E,0x0D,0x0A]
+
+example : Spec.V1.Line V1.ip6Model unk .unknown := Spec.V1.Line.unknown [] (.inl rfl) (by simp)
+
+/-- `PROXY UNKNOWN\r\n` followed by payload is accepted by every entry point, with the
+line as header. -/
+example : V1.parseBytes (unk ++ [0x47, 0x45, 0x54]) = .ok ⟨unk, .unknown⟩ := by decide
+example : V1.parseStr (unk ++ [0x47, 0x45, 0x54]) = .ok ⟨unk, .unknown⟩ := by decide
+example : V1.parseBytes (unk ++ [0x47, 0x45, 0x54]) = .ok ⟨unk, .unknown⟩ :=
+  (bytes_accept_iff_partial _ ⟨unk, .unknown⟩).mpr
+    ⟨_, rfl, by decide, by decide, Spec.V1.Line.unknown [] (.inl rfl) (by simp)⟩
+
+/-- A digit string is `Decimal` for its value. -/
+private theorem dec1 : Spec.V1.Decimal [0x31] 1 := by
+  refine ⟨by simp, ?_, by simp, rfl⟩
+  intro c hc; simp only [List.mem_singleton] at hc; subst hc; exact ⟨by decide, by decide⟩
+private theorem dec2 : Spec.V1.Decimal [0x32] 2 := by
+  refine ⟨by simp, ?_, by simp, rfl⟩
+  intro c hc; simp only [List.mem_singleton] at hc; subst hc; exact ⟨by decide, by decide⟩
+private theorem dec80 : Spec.V1.Decimal [0x38, 0x30] 80 := by
+  refine ⟨by simp, ?_, by simp, rfl⟩
+  intro c hc; simp only [List.mem_cons, List.not_mem_nil, or_false] at hc
+  rcases hc with rfl | rfl <;> exact ⟨by decide, by decide⟩
+private theorem dec443 : Spec.V1.Decimal [0x34, 0x34, 0x33] 443 := by
+  refine ⟨by simp, ?_, by simp, rfl⟩
+  intro c hc; simp only [List.mem_cons, List.not_mem_nil, or_false] at hc
+  rcases hc with rfl | rfl | rfl <;> exact ⟨by decide, by decide⟩
+
+/-- `1.1.1.1` and `2.2.2.2` -/
+private def ip1 : B := [0x31,0x2E,0x31,0x2E,0x31,0x2E,0x31]
+private def ip2 : B := [0x32,0x2E,0x32,0x2E,0x32,0x2E,0x32]
+
+/-- `PROXY TCP4 1.1.1.1 2.2.2.2 80 443\r\n`: a well-formed line with distinct source and
+destination, denoting exactly those four values. -/
+private theorem tcp4_line :
+    Spec.V1.Line V1.ip6Model
+      (V1.PROXY ++ [V1.SP] ++ V1.TCP4 ++ [V1.SP] ++ ip1 ++ [V1.SP] ++ ip2 ++ [V1.SP] ++ [0x38, 0x30] ++
+        [V1.SP] ++ [0x34, 0x34, 0x33] ++ [V1.CR, V1.LF])
+      (.tcp4 { srcAddr := ⟨1, 1, 1, 1⟩, srcPort := 80, dstAddr := ⟨2, 2, 2, 2⟩, dstPort := 443 }) :=
+  Spec.V1.Line.tcp4 ip1 ip2 [0x38, 0x30] [0x34, 0x34, 0x33] ⟨1, 1, 1, 1⟩ ⟨2, 2, 2, 2⟩ 80 443
+    ⟨[0x31], [0x31], [0x31], [0x31], dec1, dec1, dec1, dec1, rfl⟩
+    ⟨[0x32], [0x32], [0x32], [0x32], dec2, dec2, dec2, dec2, rfl⟩ dec80 dec443
+
+/-- … so the parser accepts it (followed by anything) and reports those values. -/
+example (rest : B) :
+    V1.parseBytes ((V1.PROXY ++ [V1.SP] ++ V1.TCP4 ++ [V1.SP] ++ ip1 ++ [V1.SP] ++ ip2 ++ [V1.SP] ++
+        [0x38, 0x30] ++ [V1.SP] ++ [0x34, 0x34, 0x33] ++ [V1.CR, V1.LF]) ++ rest) =
+      .ok ⟨V1.PROXY ++ [V1.SP] ++ V1.TCP4 ++ [V1.SP] ++ ip1 ++ [V1.SP] ++ ip2 ++ [V1.SP] ++
+        [0x38, 0x30] ++ [V1.SP] ++ [0x34, 0x34, 0x33] ++ [V1.CR, V1.LF],
+        .tcp4 { srcAddr := ⟨1, 1, 1, 1⟩, srcPort := 80, dstAddr := ⟨2, 2, 2, 2⟩, dstPort := 443 }⟩ :=
+  (bytes_accept_iff_partial _ _).mpr ⟨rest, rfl, by decide, by decide, tcp4_line⟩
+
+/-- A line that is not well-formed (two spaces) is rejected. -/
+example : V1.parseBytes [0x50,0x52,0x4F,0x58,0x59,0x20,0x20,0x55,0x4E,0x4B,0x4E,0x4F,0x57,0x4E,0x0D,0x0A] =
+    .error (.parse .invalidProtocol) := by decide
+
+/-! ## The full statement: RFC 4291 text forms for the IPv6 addresses
+
+`StdNet.parseIpv6_iff_text` (Lemmas/Ipv6Grammar.lean) shows that the model of
+`Ipv6Addr::from_str` accepts exactly `Spec.V1.Ipv6Text`, the RFC 4291 section 2.2
+grammar, and that every accepted text is free of SP / CR. Hence the parameter of
+the `_partial` theorems can be replaced by the grammar itself. -/
+
+theorem ip6Model_iff_text (s : B) (a : Ip6) : V1.ip6Model s a ↔ Spec.V1.Ipv6Text s a := by
+  constructor
+  · rintro ⟨h, -⟩; exact (StdNet.parseIpv6_iff_text s a).mp h
+  · intro h
+    have hp := (StdNet.parseIpv6_iff_text s a).mpr h
+    refine ⟨hp, ?_⟩
+    intro c hc
+    have := StdNet.parseIpv6_sepFree s a hp c hc
+    simp only [V1.isSep, V1.SP, V1.CR, Bool.or_eq_false_iff, beq_eq_false_iff_ne, ne_eq]
+    exact this
+
+theorem line_mono {p q : B → Ip6 → Prop} (hpq : ∀ s a, p s a → q s a) {w : B} {addr : V1.Addresses}
+    (hl : Spec.V1.Line p w addr) : Spec.V1.Line q w addr := by
+  cases hl with
+  | unknown tail h1 h2 => exact .unknown tail h1 h2
+  | tcp4 sa da sp dp a b p' q' h1 h2 h3 h4 => exact .tcp4 sa da sp dp a b p' q' h1 h2 h3 h4
+  | tcp6 sa da sp dp a b p' q' h1 h2 h3 h4 => exact .tcp6 sa da sp dp a b p' q' (hpq _ _ h1) (hpq _ _ h2) h3 h4
+
+theorem line_iff_text (w : B) (addr : V1.Addresses) :
+    Spec.V1.Line V1.ip6Model w addr ↔ Spec.V1.Line Spec.V1.Ipv6Text w addr :=
+  ⟨line_mono (fun s a => (ip6Model_iff_text s a).mp), line_mono (fun s a => (ip6Model_iff_text s a).mpr)⟩
+
+/-- **C01 (bytes).** `TryFrom<&[u8]>` succeeds with result `h` if and only if the
+input starts with a line of at most 107 bytes that is valid UTF-8 and is a
+well-formed PROXY v1 line (`Spec.V1.Line` with dotted-quad IPv4, RFC 4291 IPv6
+text and plain decimal ports), and then `h` reports exactly that line and
+exactly the addresses it denotes. -/
+theorem bytes_accept_iff (x : B) (h : V1.Header) :
+    V1.parseBytes x = .ok h ↔ ∃ rest, x = h.header ++ rest ∧ h.header.length ≤ 107 ∧
+      Utf8.valid h.header = true ∧ Spec.V1.Line Spec.V1.Ipv6Text h.header h.addresses := by
+  rw [bytes_accept_iff_partial]
+  simp only [line_iff_text]
+
+/-- **C01 (text).** The same for `TryFrom<&str>` (and, by `fromStrHeader_eq`, for
+`FromStr for Header`) on every valid UTF-8 string. -/
+theorem str_accept_iff (x : B) (hx : Utf8.valid x = true) (h : V1.Header) :
+    V1.parseStr x = .ok h ↔ ∃ rest, x = h.header ++ rest ∧ h.header.length ≤ 107 ∧
+      Spec.V1.Line Spec.V1.Ipv6Text h.header h.addresses := by
+  rw [str_accept_iff_partial x hx]
+  simp only [line_iff_text]
+
 end C01
